@@ -14,6 +14,7 @@ type inputCfg struct {
 	KeyPath   string // "k" or "n.x": the field used as (declared / pool) sort key
 	KeysMixed bool   // strings, floats, nulls and missing keys next to ints
 	Unique    bool   // keys are distinct non-null ints present in every record
+	Shapes    bool   // nearly disjoint field sets (what a fused type looks like depends on arrival order)
 }
 
 var genWords = []string{"foo", "bar", "baz", "Foo bar", "qux", ""}
@@ -51,6 +52,27 @@ func genInput(r *Rng, c inputCfg) []string {
 	var out []string
 	for i := 0; i < c.N; i++ {
 		kv := genKeyValue(r, c, i, perm)
+		if c.Shapes && c.KeyPath == "k" {
+			// the shape is a function of the key, so that loads which split
+			// the key space also split the shapes
+			kk := i
+			fmt.Sscan(kv, &kk)
+			extra := [][]string{
+				{fmt.Sprintf("a:%d", r.Intn(5))},
+				{fmt.Sprintf("b:%q", Pick(r, []string{"x", "y", "z"}))},
+				{fmt.Sprintf("c:%d", r.Intn(20)), fmt.Sprintf("s:%q", Pick(r, genWords))},
+				{fmt.Sprintf("n:{x:%d}", r.Intn(4))},
+				{fmt.Sprintf("ts:2024-01-01T%02d:00:00Z", r.Intn(4)), fmt.Sprintf("a:%d", r.Intn(5))},
+			}[(kk/3)%5]
+			f := []string{}
+			if kv != "" {
+				f = append(f, "k:"+kv)
+			}
+			f = append(f, extra...)
+			f = append(f, fmt.Sprintf("id:%d", i))
+			out = append(out, "{"+strings.Join(f, ",")+"}")
+			continue
+		}
 		var f []string
 		add := func(name, val string) { f = append(f, name+":"+val) }
 		nested := c.KeyPath == "n.x"
@@ -499,3 +521,20 @@ func (g *progGen) limitIdiom() string {
 }
 
 func hasLimit(prog string) bool { return strings.Contains(prog, "-limit") }
+
+// positionalIdiom: [per-record ops] + an operator whose result depends on the
+// positions of the values or on the whole stream (fuse, head, tail, uniq) +
+// a consumer that imposes its own order or none.  On a pool the optimizer
+// must keep the scan ordered for the former although the latter does not
+// need it, and must not run the former per parallel leg only.
+func (g *progGen) positionalIdiom() string {
+	r := g.r
+	k := g.key
+	var parts []string
+	for i := r.Intn(3); i > 0; i-- {
+		parts = append(parts, Pick(r, []string{"where c > 3", "where a >= 1", "put d:=c", "drop b", "pass", "rename q:=s", "where id % 3 != 0"}))
+	}
+	parts = append(parts, Pick(r, []string{"fuse", "fuse", fmt.Sprintf("head %d", 3+r.Intn(6)), fmt.Sprintf("tail %d", 3+r.Intn(6)), "uniq", "fuse | head 6", "head 8 | fuse"}))
+	parts = append(parts, Pick(r, []string{"sort " + k, "sort -r " + k, "sort c,id", "sort -r id", "count() by a", "sum(c) by a", "count() by typeof(this)", "count()", "sum(c)", "sort a,id | head 3"}))
+	return strings.Join(parts, " | ")
+}
